@@ -185,10 +185,12 @@ func solveOne(o *Obligation, idx int, dir string, cfg SolverCfg) {
 	}
 	var got []res
 	final := res{r: "unknown"}
+	definitive := 0
 	for i := 0; i < len(solvers); i++ {
 		x := <-rc
 		got = append(got, x)
 		if x.r == "sat" || x.r == "unsat" {
+			definitive++
 			if final.r != "sat" && final.r != "unsat" {
 				final = x
 			} else if final.r != x.r {
@@ -196,7 +198,11 @@ func solveOne(o *Obligation, idx int, dir string, cfg SolverCfg) {
 				o.Output = fmt.Sprintf("%s says %s, %s says %s", final.name, final.r, x.name, x.r)
 				return
 			}
-			if !cfg.AllAgree {
+			// quick: the first answer decides; thorough: two independent solvers must give the same answer
+			if !cfg.AllAgree || definitive >= 2 {
+				if definitive >= 2 {
+					final.name += "+" + x.name
+				}
 				cancel()
 				break
 			}
